@@ -1,3 +1,32 @@
-From CandidV Require Import model.Annot.
-Theorem C10_placeholder : True. Proof. exact I. Qed.
-Print Assumptions C10_placeholder.
+(* C10 -- Untyped values survive annotate, encode and decode at their type. *)
+From Coq Require Import List NArith ZArith.
+From CandidV Require Import model.Annot proofs.WireProofs proofs.CoerceProofs proofs.AnnotProofs.
+Open Scope N_scope.
+
+(* annotation keeps every inhabitant unchanged, in both modes (from_parser = true / false) *)
+Theorem C10_annotate_id : forall E p v t,
+  wf_env E = true -> ty_closed E t = true -> has_type E v t = true -> annotate_top p E v t = Some v.
+Proof. exact annotate_top_id. Qed.
+
+(* encode at t then decode at t: M^-1 (M v) = v *)
+Theorem C10_encode_decode : forall v E t out f rest,
+  has_type E v t = true -> enc_val E v t = Some out -> (vdepth v < f)%nat ->
+  dec_val f E t (out ++ rest) = Ok (v, rest).
+Proof. exact dec_enc_val. Qed.
+
+(* decoding at the same expected type does not change the value's coercibility *)
+Theorem C10_coerce_same_type : forall E, wf_env E = true -> forall f v t t' a,
+  trace E t = Some a -> trace E t' = Some a -> ty_closed E a = true -> has_type E v t = true -> okf (coerce f E v t t').
+Proof. exact coerce_same. Qed.
+
+(* near misses are rejected by the strict mode: a nat16 at nat8, a missing non-optional field, an unknown tag *)
+Example C10_ex_rejects :
+  annotate_top true [] (VNatN 16 5) (TPrim PNat8) = None /\
+  annotate_top true [] (VRec []) (TRec [(0, TPrim PNat)]) = None /\
+  annotate_top true [] (VVariant 3 VNull) (TVariant [(0, TPrim PNull)]) = None /\
+  annotate_top true [] (VNat 5) (TPrim PInt) = Some (VInt 5).
+Proof. vm_compute. repeat split; reflexivity. Qed.
+
+Print Assumptions C10_annotate_id.
+Print Assumptions C10_encode_decode.
+Print Assumptions C10_coerce_same_type.
